@@ -298,6 +298,10 @@ def check_wait(eng, run):
     run.floor("C04.wait send-path functions with a budget and a blocking call", n, 8)
     c08.check_locks(eng, _As(run, "C04.tls"))
     c08.check_drain(eng, _As(run, "C04.tls"))
+    # asyncio adapter: every transport write is followed by the awaited drain (also the only place where a write that failed inside
+    # the event loop is reported to the sender) - rule of C20
+    from rules import c20
+    c20.check_drain(eng, _As(run, "C04.drain"))
 
 
 def run(eng, run):
